@@ -110,7 +110,7 @@ func init() {
 func init() {
 	properties["C19"] = Property{
 		Level: "exploration",
-		Rule:  "one case = (operation, protection state, caller, state kind, generated initial content): 26 operations (direct, from RunJavascript, from a rule action, the removal of a one-shot scheduled rule at the end of its triggered run) x {none, writeKey, readKey, both, readOnly, disabled} x {no key, wrong key, right key} x {indexed, linear}; refused => error and identical raw storage and live items; allowed => same result and resulting state as an unprotected twin; second matrix: 8 inherited reads (search, list and search rules, query, JS search/query, event dispatch, a child rule whose condition reads the parent) issued at an unprotected child whose PARENT is {unprotected, read key, both keys, write key, disabled} x callers x states: without the parent's read key nothing of the parent is revealed, an error is reported and both storages are unchanged; non-trivial = protection state != none; distinct by (state, protection, caller, op, content seed); protection is set in three ways by round (SetProp, property fact without id, property fact under a caller-chosen id); protections readOnly+writeKey and readOnly+both; the same matrix through sys.System (18 operations incl. SetParents with empty and nil lists, ClearLocation, DeleteLocation)",
+		Rule:  "one case = (operation, protection state, caller, state kind, generated initial content): 26 operations (direct, from RunJavascript, from a rule action, the removal of a one-shot scheduled rule at the end of its triggered run) x {none, writeKey, readKey, both, readOnly, disabled} x {no key, wrong key, right key} x {indexed, linear}; refused => error and identical raw storage and live items; allowed => same result and resulting state as an unprotected twin; second matrix: 8 inherited reads (search, list and search rules, query, JS search/query, event dispatch, a child rule whose condition reads the parent) issued at an unprotected child whose PARENT is {unprotected, read key, both keys, write key, disabled} x callers x states: without the parent's read key nothing of the parent is revealed, an error is reported and both storages are unchanged; non-trivial = protection state != none; distinct by (state, protection, caller, op, content seed); protection is set in three ways by round (SetProp, property fact without id, property fact under a caller-chosen id); protections readOnly+writeKey and readOnly+both; the same matrix through sys.System (19 operations incl. SetParents with empty and nil lists, ClearLocation, DeleteLocation, CreateLocation of a location used without being created)",
 		Floor: [2]int{200, 2000},
 		Assumptions: []string{"the matrix of DESIGN §5 C19: write operations need the write key / are refused when read-only; operations that reveal facts or rules need the read key; a disabled location refuses everything; RuleEnabled/GetParents/SetProp/StateSize-when-disabled are outside the matrix"},
 		Stages: []Stage{{Name: "matrix", Pkg: "./mon/c19", Procs: 2, Batches: [2]int{4, 8}, TimeoutS: [2]int{900, 3600}}},
